@@ -268,6 +268,9 @@ def resolve_args(op, store):
             refs[param] = value
         else:
             kwargs[param] = value
+    for param in op.get("np_args", []):
+        if isinstance(kwargs.get(param), int) and not isinstance(kwargs.get(param), bool):
+            kwargs[param] = numpy.int64(kwargs[param])
     return kwargs, refs
 
 
@@ -315,6 +318,15 @@ def execute(op, world, ctx):
         return op_digitmap(op, world, ctx)
     if name == "OWNEDIT":
         return op_ownedit(op, world, ctx)
+    if name == "ENV":
+        # environment seam: the terminal geometry a progress display might look at (runs are forked children: no leakage)
+        import os
+        for var in ("COLUMNS", "LINES"):
+            os.environ.pop(var, None)
+        if op.get("columns") is not None:
+            os.environ["COLUMNS"], os.environ["LINES"] = op["columns"], "24"
+        ctx.stats.inc("faults", "ENV:columns=%s" % op.get("columns"))
+        return {"out": {"kind": "sim"}, "res": None}
     raise HarnessError("unknown op %r" % name)
 
 
